@@ -263,12 +263,14 @@ fn content_to_model(c: &Content<Vec<Operation>>) -> Vec<Op> {
 }
 
 /// decode(encode(decode(bytes))) == decode(bytes); None = held or not applicable.
-/// `data`: the sample data of the (valid) image. When it does not start with a white-space byte the parser's
-/// separator rule after ID cannot touch it, so the first decode has to succeed and return exactly these bytes -
-/// otherwise there are no "same operations" to come back to. Data starting with white-space is outside the clause
-/// (counted): the parser consumes every white-space byte after ID.
+/// `data`: the sample data of the (valid) image, written after ID and exactly one white-space character. The first
+/// decode has to succeed and return exactly these bytes - otherwise there are no "same operations" to come back to.
+/// (Witnesses recorded without the data keep the weaker reading: a failing first decode is outside the clause.)
 fn check_inline(bytes: &[u8], expect_ops: usize, data: Option<&[u8]>, out: &mut ShardOut) -> Option<(&'static str, String)> {
-    let strict = data.filter(|d| d.first().map_or(true, |b| !b" \t\r\n\x0c\0".contains(b)));
+    let strict = data;
+    if data.and_then(|d| d.first()).map_or(false, |b| b" \t\r\n\x0c\0".contains(b)) {
+        out.count("inline_images_data_starting_with_white_space");
+    }
     let d1 = match Content::decode(bytes) {
         Ok(d) => d,
         Err(e) => {
@@ -283,8 +285,6 @@ fn check_inline(bytes: &[u8], expect_ops: usize, data: Option<&[u8]>, out: &mut 
         if strict.is_some() {
             return Some(("decode", format!("valid inline image decodes to {} operations ({:?}), the content has {}", d1.operations.len(), d1.operations.iter().map(|o| o.operator.clone()).collect::<Vec<_>>(), expect_ops)));
         }
-        // the first decode did not see the image as an image (data starting with
-        // white-space is eaten by the parser's separator rule): outside this clause
         out.count("inline_first_decode_not_an_image");
         return None;
     }
@@ -372,11 +372,10 @@ pub fn run(cfg: &RunCfg) -> (PropMeta, ShardOut, Map<String, Value>) {
     });
     let meta = PropMeta {
         level: "exploration",
-        rule: "random operation sequences (PDF operator table + random tokens over letters * ' \"; 0..8 operands of every direct kind, nesting<=5, hostile bytes) through Content::encode -> Content::decode; all 65,536 byte pairs as literal string, hex string, name and dictionary key; generated inline images (Gray/RGB/CMYK/RGBA, BPC 1..16, 1..16 x 1..16 so rows with and without padding bits, data containing EI) through decode -> encode -> decode; when the sample data does not start with white-space the first decode must succeed and return exactly the bytes between ID and EI. Non-trivial: at least one operation / the first decode recognised the image; distinct by canonical printing.".into(),
+        rule: "random operation sequences (PDF operator table + random tokens over letters * ' \"; 0..8 operands of every direct kind, nesting<=5, hostile bytes) through Content::encode -> Content::decode; all 65,536 byte pairs as literal string, hex string, name and dictionary key; generated inline images (Gray/RGB/CMYK/RGBA, BPC 1..16, 1..16 x 1..16 so rows with and without padding bits, data containing EI) through decode -> encode -> decode; the first decode must succeed and return exactly the bytes between the single white-space character after ID and EI (also when they start with white-space bytes). Non-trivial: at least one operation / the first decode recognised the image; distinct by canonical printing.".into(),
         assumptions: vec![
             "operator tokens that are or begin with true/false/null/BI are operand keywords or the inline-image introducer, not operators (outside the quantifier)".into(),
             "operands are direct objects: no references, no streams (except the parser's own inline-image stream)".into(),
-            "inline images whose sample data starts with a white-space byte (the parser's separator rule after ID consumes it) are outside the second clause when their first decode fails or does not yield a BI operation; counted in counters".into(),
         ],
         exhaustive: false,
         min_distinct: 100,
